@@ -267,20 +267,21 @@ func runC19(o *Options) *Result {
 	}
 	// 3. the same constructs scaled up: deeper nests, larger counters, longer chains
 	scaled := map[string]string{
-		"range-nest-3":          `{% for _, a := range user.Finance.History %}[{% for _, b := range user.Finance.History %}({% for _, c := range user.Finance.History sep , %}{%= c.DateUnix %}{% endfor %}){% endfor %}]{% endfor %}`,
-		"range-nest-4":          `{% for _, a := range user.Finance.History %}{% for _, b := range user.Finance.History %}{% for _, c := range user.Finance.History %}{% for k, d := range user.Finance.History sep ; %}{%= k %}:{%= d.Cost %}{% endfor %}|{% endfor %}{% endfor %}{% endfor %}`,
-		"range-siblings":        `{% for _, a := range user.Finance.History %}{% for _, b := range user.Finance.History %}{%= b.Cost %}{% endfor %}{% for _, c := range user.Finance.History %}{%= c.DateUnix %}{% endfor %}{% endfor %}`,
-		"counter-250-260":       `{% for i := 250; i < 260; i++ sep , %}{%= i %}{% endfor %}`,
-		"counter-0-300":         `{% for i := 0; i <= 300; i++ %}{% if i == 299 %}{%= i %}{% endif %}{% endfor %}`,
-		"counter-negative":      `{% for i := 3; i >= -3; i-- sep , %}{%= i %}{% endfor %}`,
-		"counter-nest-ctx":      `{% for i := 254; i < 258; i++ %}{% ctx x = i %}{% for j := 0; j < 3; j++ %}{%= x %}.{%= j %} {% endfor %}{% endfor %}`,
-		"counter-compare-large": `{% counter c = 300 %}{% for i := 0; i < 4; i++ %}{% counter c+100 %}{% if c > 500 %}{%= c %},{% endif %}{% if 600 <= c %}!{% endif %}{% endfor %}{% switch c %}{% case 700 %}seven{% default %}other{% endswitch %}`,
-		"counter-tag-large":     `{% counter c = 1000 %}{% for i := 0; i < 5; i++ %}{% counter c+300 %}{%= c %},{% endfor %}`,
-		"letters-chain":         `{%hh= user.Name %}{%jj= user.Id %}{%uu= user.Name %}{%aq= user.Id %}{%JJ= user.Name %}{%cc= user.Id %}`,
-		"includes-in-loop":      `{% for i := 0; i < 12; i++ %}{% include simple %}{% endfor %}`,
-		"include-long-key":      `{% for i := 0; i < 3; i++ %}{% include scaled-include-target-with-a-key-longer-than-thirty-two-bytes nosuch %}{% endfor %}`,
-		"regions-nested":        `{% htmlescape %}<b>{%= user.Name %}{% urlencode %}a b&{%= user.Id %}{% endurlencode %}</b>{% jsonquote %}"{%= user.Name %}"{% endjsonquote %}{% endhtmlescape %}`,
-		"switch-in-loops":       `{% for _, a := range user.Finance.History %}{% switch a.Cost %}{% case 14.345241 %}A{% case 60 %}B{% default %}C{% endswitch %}{% for j := 0; j < 2; j++ %}{% if a.Cost > 20 %}{%= a.Cost|default(0) %}{% else %}-{% endif %}{% endfor %}{% endfor %}`,
+		"range-nest-3":           `{% for _, a := range user.Finance.History %}[{% for _, b := range user.Finance.History %}({% for _, c := range user.Finance.History sep , %}{%= c.DateUnix %}{% endfor %}){% endfor %}]{% endfor %}`,
+		"range-nest-4":           `{% for _, a := range user.Finance.History %}{% for _, b := range user.Finance.History %}{% for _, c := range user.Finance.History %}{% for k, d := range user.Finance.History sep ; %}{%= k %}:{%= d.Cost %}{% endfor %}|{% endfor %}{% endfor %}{% endfor %}`,
+		"range-siblings":         `{% for _, a := range user.Finance.History %}{% for _, b := range user.Finance.History %}{%= b.Cost %}{% endfor %}{% for _, c := range user.Finance.History %}{%= c.DateUnix %}{% endfor %}{% endfor %}`,
+		"counter-250-260":        `{% for i := 250; i < 260; i++ sep , %}{%= i %}{% endfor %}`,
+		"counter-0-300":          `{% for i := 0; i <= 300; i++ %}{% if i == 299 %}{%= i %}{% endif %}{% endfor %}`,
+		"counter-negative":       `{% for i := 3; i >= -3; i-- sep , %}{%= i %}{% endfor %}`,
+		"counter-nest-ctx":       `{% for i := 254; i < 258; i++ %}{% ctx x = i %}{% for j := 0; j < 3; j++ %}{%= x %}.{%= j %} {% endfor %}{% endfor %}`,
+		"counter-compare-large":  `{% counter c = 300 %}{% for i := 0; i < 4; i++ %}{% counter c+100 %}{% if c > 500 %}{%= c %},{% endif %}{% if 600 <= c %}!{% endif %}{% endfor %}{% switch c %}{% case 700 %}seven{% default %}other{% endswitch %}`,
+		"counter-tag-large":      `{% counter c = 1000 %}{% for i := 0; i < 5; i++ %}{% counter c+300 %}{%= c %},{% endfor %}`,
+		"letters-chain":          `{%hh= user.Name %}{%jj= user.Id %}{%uu= user.Name %}{%aq= user.Id %}{%JJ= user.Name %}{%cc= user.Id %}`,
+		"includes-in-loop":       `{% for i := 0; i < 12; i++ %}{% include simple %}{% endfor %}`,
+		"include-long-key":       `{% for i := 0; i < 3; i++ %}{% include scaled-include-target-with-a-key-longer-than-thirty-two-bytes nosuch %}{% endfor %}`,
+		"range-string-keyed-map": `{% for name, bits := range user.Flags sep , %}{%= name %}={%= bits %}{% endfor %}|{% for k, item := range user.Finance.History sep ; %}{%= k %}:{%= item.Cost %}{% endfor %}`,
+		"regions-nested":         `{% htmlescape %}<b>{%= user.Name %}{% urlencode %}a b&{%= user.Id %}{% endurlencode %}</b>{% jsonquote %}"{%= user.Name %}"{% endjsonquote %}{% endhtmlescape %}`,
+		"switch-in-loops":        `{% for _, a := range user.Finance.History %}{% switch a.Cost %}{% case 14.345241 %}A{% case 60 %}B{% default %}C{% endswitch %}{% for j := 0; j < 2; j++ %}{% if a.Cost > 20 %}{%= a.Cost|default(0) %}{% else %}-{% endif %}{% endfor %}{% endfor %}`,
 	}
 	if t, err := dyntpl.Parse([]byte("<{%= user.Id %}>"), false); err == nil {
 		dyntpl.RegisterTplKey("scaled-include-target-with-a-key-longer-than-thirty-two-bytes", t)
